@@ -297,8 +297,46 @@ impl Gen {
             73..=78 => format!("childid p {child}"),
             79..=82 => format!("pubreadd {child}"),
             83..=85 => "updateid p".to_string(),
-            86..=88 => format!("childsuspend p {child}"),
-            89..=96 => {
+            86..=90 => {
+                // a suspension episode: the parent suspends the child, maybe changes its entitlement
+                // (unchanged / subset / superset / disjoint, relative to what its certificates carry),
+                // then somebody talks in the child's name - with its key (the automatic un-suspension
+                // decides certificate by certificate) or with a foreign key (nothing may happen)
+                self.nmsg += 1;
+                let name = format!("m{}", self.nmsg);
+                let key = match self.r.below(7) { 0 => format!("id:{other}"), 1 => "rnd".to_string(), _ => format!("id:{child}") };
+                let pl = match self.r.below(7) {
+                    0..=2 => "list".to_string(),
+                    3 => { self.nkeys += 1; format!("issue:n{}", self.nkeys) }
+                    4 => format!("issue:cur:p/{child}"),
+                    5 => { self.nkeys += 1; format!("issue:n{}:0:{}", self.nkeys, self.r.pick(&["1", "2", "3"])) }
+                    _ => format!("revoke:cur:p/{child}"),
+                };
+                let mut seq = vec![format!("childsuspend p {child}")];
+                if self.r.chance(3, 5) {
+                    let atoms = *self.r.pick(&["1", "2", "3", "1,2", "1,3", "2,3", "1,2,3"]);
+                    seq.push(format!("childres p {child} {atoms}"));
+                }
+                if self.r.chance(1, 8) { seq.push(format!("childunsuspend p {child}")); }
+                seq.push(format!("mk6492 {name} sender={child} recip=p key={key} pl={pl}"));
+                seq.push(format!("send6492 p {name}"));
+                if self.r.chance(1, 2) {
+                    // ... and the child itself asks what it has afterwards
+                    self.nmsg += 1;
+                    let n2 = format!("m{}", self.nmsg);
+                    seq.push(format!("mk6492 {n2} sender={child} recip=p key=id:{child} pl=list"));
+                    seq.push(format!("send6492 p {n2}"));
+                }
+                let first = seq.remove(0);
+                for op in seq.into_iter().rev() { self.flips.push(op); }
+                first
+            }
+            91 => {
+                // the entitlement changes while the child is active
+                let atoms = *self.r.pick(&["1", "2", "3", "1,2", "1,3", "2,3", "1,2,3"]);
+                format!("childres p {child} {atoms}")
+            }
+            92..=97 => {
                 // single-bit corruptions of a valid message of `child`
                 self.nmsg += 1;
                 let name = format!("m{}", self.nmsg);
